@@ -224,13 +224,13 @@ def c01(tier, seed):
         if not cat:
             lines.append("INCONCLUSIVE no wait points collected (vacuous)")
             return cov, 2, lines
-        smt_for_cross = None
+        smt_cross = {}
         for n in (2, 3, 4):
             verdict, dt, model, smt2 = q.deadlock_query(cat, n)
             cov["combination_queries"].append({"threads": n, "verdict": verdict, "solver_s": round(dt, 2)})
             common.log("[C01] combination query N=%d over %d wait points: %s (%.1fs)" % (n, len(cat), verdict, dt))
-            if n == 3:
-                smt_for_cross = smt2
+            if n in (2, 3):
+                smt_cross[n] = (smt2, verdict)
             if verdict == "sat":
                 path = os.path.join(common.EVIDENCE_DIR, "replays", "C01-deadlock-N%d.json" % n)
                 os.makedirs(os.path.dirname(path), exist_ok=True)
@@ -247,12 +247,16 @@ def c01(tier, seed):
             if verdict != "unsat":
                 lines.append("INCONCLUSIVE combination query N=%d: %s" % (n, verdict))
                 rc = max(rc, 2)
-        if smt_for_cross is not None and (tier != "quick" or os.environ.get("VERIF_CROSS")):
-            cov["solver_cross_check_N3"] = q.cross_check(smt_for_cross, "n3")
-            vs = set(v for v in cov["solver_cross_check_N3"].values())
-            if len(vs) > 1 or (vs and list(vs)[0] not in ("unsat", "sat")):
-                lines.append("INCONCLUSIVE solvers disagree on the N=3 query: %s" % cov["solver_cross_check_N3"])
-                rc = max(rc, 2)
+        if smt_cross and (tier != "quick" or os.environ.get("VERIF_CROSS")):
+            # the same queries through other solvers; only a definite contradiction counts, a timeout is reported
+            cov["solver_cross_check"] = {}
+            for n, (smt2, verdict) in smt_cross.items():
+                res = q.cross_check(smt2, "n%d" % n, timeout=120 if n == 2 else 240)
+                cov["solver_cross_check"]["N=%d" % n] = res
+                for name, v in res.items():
+                    if v in ("sat", "unsat") and v != verdict:
+                        lines.append("INCONCLUSIVE solver %s says %s on the N=%d query, z3 5.1 says %s" % (name, v, n, verdict))
+                        rc = max(rc, 2)
         cov["wait_point_samples"] = [{"awaits": k[0], "mode": "X" if k[1] == 0 else "S", "holds_x": sorted(k[2]), "holds_s": sorted(k[3]),
                                       "from": sorted(v)[:2]} for k, v in list(sorted(cat.items(), key=lambda kv: (len(kv[0][2]) + len(kv[0][3])), reverse=True))[:5]]
         cov["combination_time_s"] = round(time.time() - t0, 2)
